@@ -465,6 +465,42 @@ pub fn deflate_reset_case(t: &mut Tape, ctx: &Ctx, o: &mut Outcome) {
             return;
         }
         let tr = Tracker::new(t.pick(&[0x00u8, 0xFF, 0xA5]));
+        // directed class (drawn last, so older tapes keep their meaning; an exhausted tape reads 0 = off):
+        // the history fills the hash tables at a match-finding level and then drops to level 0 with
+        // deflateParams before the reset; the continuation starts stored and switches back up with
+        // little stored data in between, so neither deflateReset nor deflateParams may rely on the
+        // "level 0 never touches the hash" shortcut (seed I12)
+        let lvlswitch = t.below(4) == 1;
+        let (mut ops1, mut stop1, mut ops2, mut finish1) = (ops1.clone(), stop1, ops2.clone(), finish1);
+        if lvlswitch {
+            let mut x = crate::tape::Xs::new(seed ^ 0x112);
+            plan1.cfg.level = 1 + x.below(9) as c_int;
+            plan1.cfg.strategy = 0;
+            plan1.dict = None;
+            let a1 = 2 + x.below(6);
+            let n1 = 64 + x.below(3000);
+            plan1.data = (0..n1).map(|_| b'a' + x.below(a1) as u8).collect();
+            let small = x.below(120);
+            plan1.ops = vec![
+                DefOp::Deflate { in_chunk: n1 - small, out_chunk: 1 << 16, flush: [Z_BLOCK, Z_NO_FLUSH, Z_SYNC_FLUSH, Z_PARTIAL_FLUSH][x.below(4)] },
+                DefOp::Params { in_chunk: small / 2, out_chunk: 1 << 16, level: 0, strategy: 0 },
+            ];
+            plan1.cycles = 1;
+            plan2.cfg = plan1.cfg;
+            plan2.data = if x.below(2) == 0 { plan1.data.clone() } else { (0..64 + x.below(3000)).map(|_| b'a' + x.below(a1) as u8).collect() };
+            let pre = x.below(3) * x.below(60);
+            let l2 = 1 + x.below(9) as c_int;
+            plan2.ops = vec![
+                DefOp::Params { in_chunk: pre.min(plan2.data.len()), out_chunk: 1 << 16, level: l2, strategy: 0 },
+                DefOp::Deflate { in_chunk: plan2.data.len(), out_chunk: 1 << 16, flush: Z_NO_FLUSH },
+            ];
+            plan2.cycles = 1;
+            plan2.finish_out = vec![1 << 16];
+            ops1 = flat_ops(&plan1, 200);
+            stop1 = ops1.len();
+            ops2 = flat_ops(&plan2, 200);
+            finish1 = x.below(2) == 0;
+        }
         guard::register(&tr);
         let mut hold = Vec::new();
         let mut s = match d_init(&plan1.cfg, plan1.cfg.level, plan1.cfg.strategy, &tr, "reset stream") {
@@ -514,6 +550,9 @@ pub fn deflate_reset_case(t: &mut Tape, ctx: &Ctx, o: &mut Outcome) {
             return;
         }
         o.class("deflate reset twin");
+        if lvlswitch {
+            o.class("reset at level 0 after a match-finding history, continuation switches level up");
+        }
         let w = 1usize << plan1.cfg.eff_wbits();
         let big_hist = plan1.data.len() >= w && n1 >= 1;
         let midstream = !(finish1 && stop1 >= ops1.len());
@@ -523,7 +562,7 @@ pub fn deflate_reset_case(t: &mut Tape, ctx: &Ctx, o: &mut Outcome) {
         if big_hist {
             o.class("reset after >= 1 window of data");
         }
-        if n1 >= 1 && n2 >= 1 && (big_hist || midstream) && !plan1.data.is_empty() {
+        if n1 >= 1 && n2 >= 1 && (big_hist || midstream || lvlswitch) && !plan1.data.is_empty() {
             let mut fp = Fp::new();
             fp.bytes(plan1.cfg.describe().as_bytes()).bytes(&plan1.data).bytes(plan1.describe_ops().as_bytes()).bytes(&plan2.data).bytes(plan2.describe_ops().as_bytes()).add(stop1 as u64);
             o.nontrivial = Some(fp.0);
